@@ -198,11 +198,23 @@ Definition floorZ (x : b64) : Z :=
   | _ => 0%Z
   end.
 
-(* Random::Uniform: range = max - min at construction; getValue = min + getNextRandom()*range;
-   getIntValue = (int) floor(getValue()) *)
-Definition uniform_expr (mn mx r : b64) : b64 := fadd mn (fmul r (fsub mx mn)).
+(* Random::Uniform: range = max - min at construction.
+   [uniform_raw] is the expression min + getNextRandom()*range that getValue returned before commit
+   181ff92a; in binary64 it can round up to max.  Since that commit getValue is
+     value = min + r*range;  if (value >= max && min < max) return std::nextafter(max, min);  return value;
+   which is [uniform_expr]; getIntValue = (int) floor(getValue()). *)
+Definition fleb : b64 -> b64 -> bool := @Bleb prec emax.
+Definition fltb : b64 -> b64 -> bool := @Bltb prec emax.
+Definition fpred : b64 -> b64 := @Bpred prec emax Hprec Hemax.      (* nextafter(x, y) for y < x *)
+Definition uniform_raw (mn mx r : b64) : b64 := fadd mn (fmul r (fsub mx mn)).
+Definition uniform_expr (mn mx r : b64) : b64 :=
+  let v := uniform_raw mn mx r in
+  if fleb mx v && fltb mn mx then fpred mx else v.
 Definition uniform_value (mn mx : b64) (v : N) : b64 := uniform_expr mn mx (res53 v).
 Definition uniform_int (mn mx : b64) (v : N) : Z := floorZ (uniform_value mn mx v).
+(* the pre-fix expression on a raw draw (kept for the regression lemmas) *)
+Definition uniform_value_raw (mn mx : b64) (v : N) : b64 := uniform_raw mn mx (res53 v).
+Definition uniform_int_raw (mn mx : b64) (v : N) : Z := floorZ (uniform_value_raw mn mx v).
 
 (* sign/mantissa/exponent view used by the drivers and the bit-level I/O *)
 Definition bits_of (x : b64) : Z :=
